@@ -84,6 +84,7 @@ def main(pid, argv):
     ck.assumptions = ["isolation of N connections: the Go scheduler samples interleavings; the theorem covers all traces of the model, in which connections share only the immutable registry",
                       "the independent oracle (lib/props/svccommon.py expected_conn) is the reading of the statement; model equality is byte-exact"]
     ck.check_obligations()
+    ck.lock_facts_obligation()
     bins = C.build(ck)
     if bins is None:
         return ck.finish()
